@@ -4,7 +4,7 @@ import json
 import os
 
 V = os.path.dirname(os.path.dirname(os.path.abspath(__file__)))
-HOOK_COMMITS = ["9b615ed", "0f2a307", "ccdb599", "d17c727", "e6d9d10"]
+HOOK_COMMITS = ["9b615ed", "0f2a307", "ccdb599", "d17c727", "e6d9d10", "d6d5c38"]
 
 CHECKS = {
  "C01": dict(
@@ -268,7 +268,7 @@ CHECKS = {
        "members stopped, smallest-free ids, the return point and status of the foreground wait, and no stuck parked event, all "
        "against kernel truth. TLC-generated behaviours are replayed on a real Shell through an injectable wait-status source; "
        "after every real call (insert_job, wait_fg_job, try_wait_bg_jobs, fg, bg) the real table is judged against kernel truth "
-       "and compared with the model's table (spec drift is reported, currently 0).",
+       "and compared with the model's table (spec drift is reported, currently 0). The wait's final non-blocking poll is an action of its own (FgPollEmpty); a wait that returns on a stale stop report while the member's Continued report is already queued is a violation (the model's 'nodrain' switch = the pinned code, refuted by ReturnedWhenDue, negative control).",
   design_ref="DESIGN.md 3.7, 6 (C06)",
   note="Trusted: TLC; the kernel model (measured against Linux); the cfg(cicada_verif) injection point in waitpidx/handle_sigchld; "
        "the harness mirrors run_pipeline's insert_job calls (the real launch path is C07's). Bounded: <= 3 jobs, <= 3 processes, "
@@ -322,7 +322,7 @@ EXTRA = {
  "C11": HEADS + " Builtins as inner commands are judged against their own stand-alone output.",
  "C12": HEADS + " Words are also placed in `for` word lists; a brace group and `*` in one word (the group first, each produced word a pattern "
         "of its own), ranges whose bounds are next to the 32-bit limits, quoted braces in assignment values, patterns under a value with , { } and a HOME that changes during the session are covered.",
- "C02": " Stages that are stopped and continued from outside while the pipeline runs have not terminated (controller-stage scenarios); a pipeline that cannot start a stage under a descriptor limit still terminates; a foreground pipeline ended by Ctrl-C reports 130 with the shell polling and with its SIGCHLD handler enabled.",
+ "C02": " Stages that are stopped and continued from outside while the pipeline runs have not terminated (controller-stage scenarios, run as scheduled and with the shell held at a cfg(cicada_verif) schedule point right after it has read the stop report, so that the exits of the other stages and the Continued report are pending together); a pipeline that cannot start a stage under a descriptor limit still terminates; a foreground pipeline ended by Ctrl-C reports 130 with the shell polling and with its SIGCHLD handler enabled.",
  "C05": " Seed lines hold numeric bounds next to the machine limits and unterminated references.",
  "C07": " spec/Launch.tla also models who hands the terminal over (only the shell = pinned: negative control) and the shell taking it back; "
         "foreground jobs that read the terminal at once are run under widened fork windows; directed sessions cover an older job ending while "
